@@ -5,6 +5,16 @@ LETTERS = 'abcdefghijklmnopqrstuvwxyzABCDEFGHIJKLMNOPQRSTUVWXYZ'
 DIGITS = '0123456789'
 IDENT = LETTERS + DIGITS + '_'
 SPACE = ' \t\n\r'
+# independent transcription: words reserved in every Cassandra release (same list as core_reserved_words in CqlLex.v)
+CORE_RESERVED = frozenset('''add allow alter and apply asc authorize batch begin by columnfamily create delete desc describe drop
+entries execute from full grant if in index infinity insert into is keyspace limit materialized modify nan norecursive not null of on
+or order primary rename replace revoke schema select set table to token truncate unlogged update use using view where
+with'''.split())
+
+
+def lexer_reserved(driver_reserved):
+    """what the CQL lexer treats as keywords: the driver table (DESIGN 4.0) plus the core list"""
+    return set(driver_reserved) | CORE_RESERVED
 
 
 def ascii_lower(s):
